@@ -52,9 +52,11 @@ Init ==
   /\ depth = 0
   /\ ev = NoEvent
 
+\* (the new table is bound through a singleton set: TLC re-evaluates action-level parameters on every reference)
 Do(newtab, e, used) ==
-  /\ ctab' = newtab
-  /\ ev' = [e EXCEPT !.upd = LET ah == AbsHeap(ctab) nh == AbsHeap(newtab)
+  \E nt \in {newtab} :
+  /\ ctab' = nt
+  /\ ev' = [e EXCEPT !.upd = LET ah == AbsHeap(ctab) nh == AbsHeap(nt)
                                  ch == {r \in Regs : nh[r] # ah[r]}
                              IN SetToSeq({<<r, nh[r]>> : r \in ch})]
   /\ ninst' = ninst + used
